@@ -345,4 +345,41 @@ example : SigValid (G := ℤ) ⟨1, 100, 2, [("a", 3), ("b", 5)]⟩ ⟨4, 7, 5, 
     (fun k => if k = "a" then 3 else 5) (fun k => if k = "a" then 6 else 6) ["a", "b"] := by
   simp [SigValid]
 
+/-! non-vacuity of `presentation_complete`: a toy group (ℤ, +), a key with two attributes, a
+credential satisfying the CL equation with `e = 2^596`, a request revealing `b` and asking
+`a ≥ 5` of the hidden value 7, a constant hash -/
+example : ∃ prf,
+    proveSingle (addOps (G := ℤ) (fun _ => ByteArray.empty)) (fun _ => 5) .checked Drv.fourSq [] 
+      ⟨1, 44, 11, [("a", 2), ("b", 5)]⟩ ⟨1, 0, 2 ^ 596, 4⟩
+      (unrevealedOf ["a", "b"] [] ["b"]) ["b"]
+      [(⟨"a", .GE, 5⟩, ⟨[("0", 1), ("1", 1), ("2", 1), ("3", 1), ("DELTA", 1)],
+                        [("0", 1), ("1", 1), ("2", 1), ("3", 1)],
+                        [("0", 1), ("1", 1), ("2", 1), ("3", 1), ("DELTA", 1)], 1⟩)]
+      [("a", 7), ("b", 3)] 1 ⟨1, 1, 1, fun _ => 1⟩ ByteArray.empty = .ok prf ∧
+    verify (fun _ => 5) .checked [] 
+      [⟨addOps (G := ℤ) (fun _ => ByteArray.empty), ⟨1, 44, 11, [("a", 2), ("b", 5)]⟩, ["a", "b"], [],
+        ⟨["b"], [⟨"a", .GE, 5⟩]⟩, false, false, false⟩] prf ByteArray.empty = .ok true := by
+  have hun : unrevealedOf ["a", "b"] [] ["b"] = ["a"] := by decide
+  refine presentation_complete (G := ℤ) (fun _ => ByteArray.empty) (fun _ => 5) (fun _ => by norm_num) .checked
+    ⟨1, 44, 11, [("a", 2), ("b", 5)]⟩ ⟨1, 0, 2 ^ 596, 4⟩ ["a", "b"] [] ⟨["b"], [⟨"a", .GE, 5⟩]⟩ _ rfl []
+    (fun k => if k = "a" then 2 else 5) (fun k => if k = "a" then 7 else 3) [("a", 7), ("b", 3)] 1
+    ⟨1, 1, 1, fun _ => 1⟩ ByteArray.empty false false ?_ ?_ ?_ ?_ ?_ ?_ ?_
+  · rw [hun]; intro k hk; simp at hk; rcases hk with rfl | rfl <;> decide
+  · rw [hun]; intro k hk; simp at hk; rcases hk with rfl | rfl <;> decide
+  · rw [hun]; simp [SigValid]
+  · norm_num
+  · exact ⟨by norm_num, by
+      have : (1:ℤ) = 2 ^ 0 := by norm_num
+      rw [this]; exact pow_lt_pow_right₀ (by norm_num) (by norm_num)⟩
+  · rw [hun]
+    intro pt hpt
+    simp at hpt
+    subst hpt
+    refine ⟨by simp, by unfold C03.I32; simp, by unfold C03.I32; simp, by decide, fun _ => 1, fun _ => 1, fun _ => 1, ?_, ?_, ?_, by norm_num, by norm_num⟩
+    · intro k hk; rw [iterKeys_eq] at hk; simp at hk; rcases hk with rfl | rfl | rfl | rfl | rfl <;> decide
+    · intro k hk; rw [iterKeys_eq] at hk; simp at hk; rcases hk with rfl | rfl | rfl | rfl <;> decide
+    · intro k hk; rw [iterKeys_eq] at hk; simp at hk; rcases hk with rfl | rfl | rfl | rfl | rfl <;> decide
+  · intro a ha; simp [keys] at ha
+
+
 end CL.C01
